@@ -51,8 +51,6 @@ type scalarRow struct {
 // (the obligation class is part of each construct label).
 func CheckScalar64(run *report.Run, p *load.Program, ruleID string) {
 	run.SetConfig(p.Cfg.ID)
-	ru := run.Rule(ruleID, "curve/scalar 64-bit back end under limbs < 2^52: every discarded 128-bit carry is zero, every W>>52 fits a word, "+
-		"the borrow / mask / Montgomery-factor idioms are the only wrap-arounds, outputs are < 2^52 again", ScalarExpectedMin)
 	pk := p.Pkg(scalarRel)
 	sp := p.SSAPkg(scalarRel)
 	if pk == nil || sp == nil {
@@ -69,10 +67,21 @@ func CheckScalar64(run *report.Run, p *load.Program, ruleID string) {
 		run.Fatal("[%s] E-RANGE: scalar.unpackedScalar is not an array", p.Cfg.ID)
 		return
 	}
-	if b, _ := arr.Elem().Underlying().(*types.Basic); b == nil || b.Kind() != types.Uint64 || arr.Len() != 5 {
+	switch b, _ := arr.Elem().Underlying().(*types.Basic); {
+	case b != nil && b.Kind() == types.Uint64 && arr.Len() == 5:
+		// the 64-bit back end: analysed below
+	case b != nil && b.Kind() == types.Uint32:
+		// no rule is declared in such a configuration: the 64-bit
+		// configurations of the same run carry the vacuity threshold
 		run.NotDecided = appendUnique(run.NotDecided, fmt.Sprintf("[%s] curve/scalar uses the 32-bit back end (unpackedScalar = %s): its Karatsuba products wrap on purpose and cancel algebraically, intervals cannot follow that; not analysed", p.Cfg.ID, arr))
 		return
+	default:
+		run.Fatal("[%s] E-RANGE: unknown representation of scalar.unpackedScalar: %s", p.Cfg.ID, arr)
+		return
 	}
+	ru := run.Rule(ruleID, "curve/scalar 64-bit back end under limbs < 2^52: every discarded 128-bit carry is zero, every W>>52 fits a word, "+
+		"the borrow / mask / Montgomery-factor idioms are the only wrap-arounds, outputs are < 2^52 again", ScalarExpectedMin)
+
 	us := tn.Type()
 	limbMax := pow2m1(52)
 
